@@ -85,6 +85,21 @@ def selftest_property(ctx, prop: str, ss: SourceSet):
             bad = [r for r in res if r.verdict != report.HOLDS]
             ctx.undecided(f"{prop}.selftest", f"benign:{bid}", "-",
                           f"false alarm on benign variant `{bid}`: {[(r.rule, r.verdict, r.detail[:80]) for r in bad][:3]}")
+    # whole-package behaviour-preserving rewrites
+    from . import transforms
+    bv = sorted(r.rule for r in base if r.verdict == report.VIOLATION)
+    bu = sorted(r.rule for r in base if r.verdict == report.UNDECIDED)
+    for mode in ("unparse", "stmt", "rename"):
+        res = verdicts(prop, transforms.transform(ss, mode))
+        rv = sorted(r.rule for r in res if r.verdict == report.VIOLATION)
+        ru = sorted(r.rule for r in res if r.verdict == report.UNDECIDED)
+        if rv == bv and ru == bu:
+            ok_b += 1
+            ctx.holds(f"{prop}.selftest", f"benign:whole-package:{mode}", "-", f"whole-package rewrite `{mode}`: same verdicts as the base tree", 1)
+        else:
+            bad = [r for r in res if r.verdict != report.HOLDS]
+            ctx.undecided(f"{prop}.selftest", f"benign:whole-package:{mode}", "-",
+                          f"false alarm on whole-package rewrite `{mode}`: {[(r.rule, r.verdict, r.detail[:80]) for r in bad][:3]}")
     ctx.count("mutants_killed", killed)
     ctx.count("benign_ok", ok_b)
     ctx.count("selftest_skipped", skipped)
